@@ -1086,9 +1086,6 @@ fn int_text(v: &mut Vec<Op>) {
     entry!(v, "int", P, 0, "UBig::from_str", S, |c| UBig::from_str(&c.s), |_d| ret());
     entry!(v, "int", P, 0, "IBig::from_str", S, |c| IBig::from_str(&c.s), |_d| ret());
     entry!(v, "int", P, 0, "str::parse::<UBig>", S, |c| c.s.parse::<UBig>(), |_d| ret());
-    // num_traits::Num::from_str_radix: the trait documents a panic for an unsupported radix as permitted
-    entry!(v, "int", P, 0, "<UBig as num_traits::Num>::from_str_radix", SN, |c| <UBig as num_traits::Num>::from_str_radix(&c.s, c.n as u32), |d| Pre::new().unspec(bad_radix(d.n), "unspecified: num_traits::Num::from_str_radix with a radix outside 2..=36").done());
-    entry!(v, "int", P, 0, "<IBig as num_traits::Num>::from_str_radix", SN, |c| <IBig as num_traits::Num>::from_str_radix(&c.s, c.n as u32), |d| Pre::new().unspec(bad_radix(d.n), "unspecified: num_traits::Num::from_str_radix with a radix outside 2..=36").done());
     const F: &str = "int: printing";
     const UR: Uses = U0.a(1).n(NK::Radix);
     const IR: Uses = U0.a(2).n(NK::Radix);
@@ -1159,26 +1156,6 @@ fn int_convert(v: &mut Vec<Op>) {
     entry!(v, "int", F, 0, "UBig::try_from(f64)", U0.n(NK::F64), |c| UBig::try_from(f64::from_bits(c.n)), |_d| ret());
     entry!(v, "int", F, 0, "IBig::try_from(f32)", U0.n(NK::F32), |c| IBig::try_from(f32::from_bits(c.n as u32)), |_d| ret());
     entry!(v, "int", F, 0, "IBig::try_from(f64)", U0.n(NK::F64), |c| IBig::try_from(f64::from_bits(c.n)), |_d| ret());
-    // third-party traits implemented by dashu-int
-    const T: &str = "int: num-traits / num-integer impls";
-    entry!(v, "int", T, 0, "num_traits::Pow::pow(UBig, usize)", U0.a(1).n(NK::Pow), |c| num_traits::Pow::pow(c.ua(), c.nu()), |_d| ret());
-    entry!(v, "int", T, 0, "num_traits::Pow::pow(&IBig, usize)", U0.a(2).n(NK::Pow), |c| num_traits::Pow::pow(&c.ia(), c.nu()), |_d| ret());
-    entry!(v, "int", T, 0, "num_traits::Euclid::div_euclid/rem_euclid (UBig)", UU, |c| (num_traits::Euclid::div_euclid(&c.ua(), &c.ub()), num_traits::Euclid::rem_euclid(&c.ua(), &c.ub())), |d| zero_b(d));
-    entry!(v, "int", T, 0, "num_traits::Euclid::div_euclid/rem_euclid (IBig)", II, |c| (num_traits::Euclid::div_euclid(&c.ia(), &c.ib()), num_traits::Euclid::rem_euclid(&c.ia(), &c.ib())), |d| zero_b(d));
-    entry!(v, "int", T, 0, "num_traits::ToPrimitive (UBig)", U0.a(1), |c| { use num_traits::ToPrimitive as TP; let x = c.ua(); (TP::to_i64(&x), TP::to_u128(&x), TP::to_f64(&x).map(|f| f.to_bits())) }, |_d| ret());
-    entry!(v, "int", T, 0, "num_traits::ToPrimitive (IBig)", U0.a(2), |c| { use num_traits::ToPrimitive as TP; let x = c.ia(); (TP::to_i8(&x), TP::to_u64(&x), TP::to_f32(&x).map(|f| f.to_bits())) }, |_d| ret());
-    entry!(v, "int", T, 0, "num_traits::FromPrimitive", U0.k(), |c| { use num_traits::FromPrimitive as FP; (<UBig as FP>::from_i64(c.k128() as i64), <IBig as FP>::from_i128(c.k128()), <UBig as FP>::from_u128(c.k128() as u128)) }, |_d| ret());
-    entry!(v, "int", T, 0, "num_traits::Signed (IBig)", II, |c| { use num_traits::Signed as NS; let (x, y) = (c.ia(), c.ib()); (NS::abs(&x), NS::abs_sub(&x, &y), NS::signum(&x)) }, |_d| ret());
-    entry!(v, "int", T, 0, "num_integer::Integer::div_floor/mod_floor (UBig)", UU, |c| (Integer::div_floor(&c.ua(), &c.ub()), Integer::mod_floor(&c.ua(), &c.ub())), |d| zero_b(d));
-    entry!(v, "int", T, 0, "num_integer::Integer::div_floor/mod_floor (IBig)", II, |c| (Integer::div_floor(&c.ia(), &c.ib()), Integer::mod_floor(&c.ia(), &c.ib())), |d| zero_b(d));
-    entry!(v, "int", T, 0, "num_integer::Integer::div_rem (IBig)", II, |c| Integer::div_rem(&c.ia(), &c.ib()), |d| zero_b(d));
-    // num-integer defines gcd(0,0) = 0, lcm(0,0) = 0; dashu documents a panic for gcd(0,0): conflict
-    entry!(v, "int", T, 0, "num_integer::Integer::gcd/lcm (UBig)", UU, |c| (Integer::gcd(&c.ua(), &c.ub()), Integer::lcm(&c.ua(), &c.ub())), |d| Pre::new().unspec(d.a.is_zero() && d.b.is_zero(), "unspecified: num_integer gcd/lcm of (0, 0)").done());
-    entry!(v, "int", T, 0, "num_integer::Integer::gcd/lcm (IBig)", II, |c| (Integer::gcd(&c.ia(), &c.ib()), Integer::lcm(&c.ia(), &c.ib())), |d| Pre::new().unspec(d.a.is_zero() && d.b.is_zero(), "unspecified: num_integer gcd/lcm of (0, 0)").done());
-    entry!(v, "int", T, 0, "num_integer::Integer::is_multiple_of/is_even/is_odd (UBig)", UU, |c| (Integer::is_multiple_of(&c.ua(), &c.ub()), Integer::is_even(&c.ua()), Integer::is_odd(&c.ua())), |d| Pre::new().unspec(d.b.is_zero(), "unspecified: num_integer is_multiple_of(0)").done());
-    entry!(v, "int", T, 0, "num_integer::Integer::is_multiple_of/is_even/is_odd (IBig)", II, |c| (Integer::is_multiple_of(&c.ia(), &c.ib()), Integer::is_even(&c.ia()), Integer::is_odd(&c.ia())), |d| Pre::new().unspec(d.b.is_zero(), "unspecified: num_integer is_multiple_of(0)").done());
-    entry!(v, "int", T, 0, "num_integer::Roots (UBig)", U0.a(1).n(NK::Root), |c| { use num_integer::Roots as R; (R::sqrt(&c.ua()), R::cbrt(&c.ua()), R::nth_root(&c.ua(), c.n as u32)) }, |d| Pre::new().must(d.n as u32 == 0, L_ROOT0, "").done());
-    entry!(v, "int", T, 0, "num_integer::Roots::nth_root (IBig)", U0.a(2).n(NK::Root), |c| { use num_integer::Roots as R; R::nth_root(&c.ia(), c.n as u32) }, |d| Pre::new().must(d.n as u32 == 0, L_ROOT0, "").must(d.a.neg && (d.n as u32) % 2 == 0, L_ROOTNEG, "").done());
 }
 
 /// residue class of a signed value
